@@ -22,7 +22,21 @@ Verdict(cs) ==
   IF want \ got # {} THEN V9(FALSE, "identity", "identity:expected-identifier-missing", ToString(CHOOSE x \in want \ got : TRUE))
   ELSE IF got \ want # {} THEN V9(FALSE, "identity", "identity:unexpected-identifier", ToString(CHOOSE x \in got \ want : TRUE))
   ELSE V9(TRUE, "ok", "", "")
+\* A keyword-shaped name (ERNO, TOX, ..): the grammar may refuse it, or read it as something that is not a variable
+\* (the function ERNO); but it must do so in every position.  cs.uses : the accepted positions of one name, each
+\* [vars (the name first, then the fixed extras), out].
+VerdictGroup(cs) ==
+  LET img(k) == N!Target(N!UpperS(cs.uses[k].vars[1].name), cs.uses[k].vars[1].arr)
+      has == { k \in 1..Len(cs.uses) : img(k) \in UserIds(cs.uses[k].out, {img(k)}) }
+      hasnot == (1..Len(cs.uses)) \ has
+      bad == { k \in has : Verdict(cs.uses[k]).ok = FALSE }
+      extra(k) == UserIds(cs.uses[k].out, {}) \ Expected(Tail(cs.uses[k].vars)) IN
+  IF has # {} /\ hasnot # {} THEN V9(FALSE, "identity", "identity:name-is-a-variable-in-one-position-and-something-else-in-another",
+                                      ToString(<<CHOOSE k \in has : TRUE, CHOOSE k \in hasnot : TRUE>>))
+  ELSE IF bad # {} THEN Verdict(cs.uses[CHOOSE k \in bad : TRUE])
+  ELSE IF \E k \in hasnot : extra(k) # {} THEN V9(FALSE, "identity", "identity:unexpected-identifier", ToString(extra(CHOOSE k \in hasnot : extra(k) # {})))
+  ELSE V9(TRUE, "ok", "", ToString(<<Cardinality(has), Cardinality(hasnot)>>))
 VARIABLES ci, vd
 Init == ci \in 1..Len(Cases) /\ vd = [clause |-> "todo"]
-Next == vd.clause = "todo" /\ vd' = Verdict(Cases[ci]) /\ UNCHANGED ci
+Next == vd.clause = "todo" /\ vd' = (IF "uses" \in DOMAIN Cases[ci] THEN VerdictGroup(Cases[ci]) ELSE Verdict(Cases[ci])) /\ UNCHANGED ci
 =============================================================================
